@@ -578,8 +578,8 @@ Proof.
   - intros i th Hn. apply nth_error_In in Hn. apply in_map_iff in Hn as (ds & <- & _). unfold thread_ok. cbn. auto.
   - discriminate.
   - intros a i E. discriminate.
-  - split; [exact Logic.I|]. intros a. unfold lp. cbn [base]. rewrite Hl. reflexivity.
-  - intros a _. unfold cr, lp. cbn [base]. rewrite Hl, Hc. reflexivity.
+  - split; [exact Logic.I|]. intros a. unfold lp. cbn [boot base log]. rewrite Hl. reflexivity.
+  - intros a _. unfold cr, lp. cbn [boot base]. rewrite Hl, Hc. reflexivity.
   - induction progs as [|x t IH]; cbn; auto.
 Qed.
 
